@@ -27,10 +27,19 @@ PROPS = json.load(open(os.path.join(VERIF, 'contracts', 'props.json')))
 
 
 def load_known():
-    p = os.path.join(VERIF, 'known_findings.json')
+    """known_findings.txt: one finding per line,
+         known: property=<id> obligation=<regex> what=<text>
+         fixed: property=<id> <commit> <what failed>        (suppresses nothing)
+    """
+    p = os.path.join(VERIF, 'known_findings.txt')
+    out = []
     if not os.path.exists(p):
-        return []
-    return json.load(open(p)).get('findings', [])
+        return out
+    for l in open(p):
+        m = re.match(r'known:\s+property=(\S+)\s+obligation=(\S+)\s+what=(.*)$', l.strip())
+        if m:
+            out.append({'property': m.group(1), 'obligation': m.group(2), 'what': m.group(3), 'status': 'known'})
+    return out
 
 
 def main():
@@ -107,6 +116,7 @@ def main():
     probes = {'expected': 0, 'rejected': 0}
     samples = []
     per_fn = []
+    excused_fns = []
     for r in results:
         solver_ms += r.get('solver_ms', 0)
         for t in r.get('trusted', []):
@@ -117,8 +127,14 @@ def main():
                 fn_contract.append({'unit': r['unit'], 'file': it['file'], 'fn': vrun.fn_display(it),
                                     'line': it['line'], 'assumed': it['assumed'],
                                     'props': it['props']})
-        failed_fns = set(f['function'] for f in r['failures'])
+        # functions whose only failures are listed known findings / belong to another property
+        mine = set(f['function'] for f in violations if f in r['failures'])
+        excused = set(f['function'] for f in r['failures']) - mine
         for fn in r.get('functions', []):
+            short = fn['name'].split('::')[-2:] if '::' in fn['name'] else [fn['name']]
+            if not fn['success'] and any(e.endswith('::'.join(short)) or e == short[-1] for e in excused):
+                excused_fns.append('%s/%s' % (r['unit'], fn['name']))
+                continue
             n_oblig += 1
             if fn['success']:
                 n_disch += 1
@@ -170,7 +186,9 @@ def main():
             'bounded': bounded,
             'extraction_dropped': sorted(set(re.sub(r' x\d+$', '', d) for d in dropped))[:200],
             'erasure_check': all(r.get('erasure_ok') for r in results),
-            'other_property_failures': [f['obligation'] for f in other_failures],
+            'other_property_failures': sorted(set(f['obligation'] for f in other_failures)),
+            'known_findings': sorted(set('%s: %s' % (f['obligation'], k['what'][:200]) for k, f in known_hits)),
+            'functions_not_counted_because_of_known_or_foreign_failures': excused_fns,
             'fragile_at_half_rlimit': fragile,
             'undecided': [{'unit': r.get('unit'), 'reason': r.get('reason')} for r in undecided],
         },
@@ -185,7 +203,11 @@ def main():
     with open(os.path.join(VERIF, 'evidence', pid + '.json'), 'w') as f:
         json.dump(ev, f, indent=1)
 
+    seen_k = set()
     for k, f in known_hits:
+        if f['obligation'] in seen_k:
+            continue
+        seen_k.add(f['obligation'])
         print('KNOWN-FINDING: property=%s %s [%s]' % (pid, k['what'], f['obligation']))
     # listed findings that did not show up at all (e.g. fixed upstream): say so, no alarm
     rc = 0
